@@ -1,5 +1,5 @@
 (** Values, keys and outcomes in wire form. *)
-From Cel.Model Require Export Sexp Values.
+From Cel.Model Require Export Sexp Values Eval.
 Open Scope string_scope.
 
 Definition tagged (t : string) (args : list sexp) : sexp := SList (Atom t :: args).
@@ -39,6 +39,7 @@ Definition sexp_of_err (c : errclass) : sexp :=
   | EUndeclared n => tagged "undeclared" (sexp_of_str n)
   | EArgCount => Atom "argcount"
   | EInvalid => Atom "invalid"
+  | EOracle => Atom "oracle"
   end.
 
 Definition sexp_of_outcome {A} (f : A -> sexp) (o : outcome A) : sexp :=
@@ -125,3 +126,181 @@ Fixpoint value_of_sexp (x : sexp) : option value :=
       else None
   | _ => None
   end.
+
+(** ------------------------------------------------------------------ expressions *)
+
+Definition opt_str (x : sexp) : option str :=
+  match x with
+  | SList (Atom t :: cps) => if t =? "str" then str_of_sexps cps else None
+  | _ => None
+  end.
+
+Fixpoint expr_of_sexp (x : sexp) : option expr :=
+  match x with
+  | Atom a => if a =? "unspec" then Some EUnspec else None
+  | SList (Atom t :: args) =>
+      let many := (fix go (l : list sexp) : option (list expr) :=
+                     match l with
+                     | [] => Some []
+                     | y :: l' => match expr_of_sexp y, go l' with
+                                  | Some e, Some es => Some (e :: es)
+                                  | _, _ => None
+                                  end
+                     end) in
+      if t =? "lit" then match args with [v] => option_map ELit (value_of_sexp v) | _ => None end
+      else if t =? "id" then option_map EIdent (str_of_sexps args)
+      else if t =? "call" then
+        match args with
+        | f :: tg :: rest =>
+            match opt_str f, many rest with
+            | Some f', Some es =>
+                match tg with
+                | Atom _ => Some (ECall f' None es)
+                | SList [Atom _; te] => option_map (fun t' => ECall f' (Some t') es) (expr_of_sexp te)
+                | _ => None
+                end
+            | _, _ => None
+            end
+        | _ => None
+        end
+      else if t =? "sel" then
+        match args with
+        | [o; f; b] => match expr_of_sexp o, opt_str f, bool_of_sexp b with
+                       | Some o', Some f', Some b' => Some (ESelect o' f' b')
+                       | _, _, _ => None
+                       end
+        | _ => None
+        end
+      else if t =? "list" then option_map EList (many args)
+      else if t =? "map" then
+        option_map EMap
+          ((fix go (l : list sexp) : option (list (expr * expr)) :=
+              match l with
+              | [] => Some []
+              | SList [k; v] :: l' =>
+                  match expr_of_sexp k, expr_of_sexp v, go l' with
+                  | Some k', Some v', Some r => Some ((k', v') :: r)
+                  | _, _, _ => None
+                  end
+              | _ => None
+              end) args)
+      else if t =? "struct" then
+        match args with
+        | n :: fields =>
+            match opt_str n,
+                  (fix go (l : list sexp) : option (list (str * expr)) :=
+                     match l with
+                     | [] => Some []
+                     | SList [f; v] :: l' =>
+                         match opt_str f, expr_of_sexp v, go l' with
+                         | Some f', Some v', Some r => Some ((f', v') :: r)
+                         | _, _, _ => None
+                         end
+                     | _ => None
+                     end) fields with
+            | Some n', Some fs => Some (EStruct n' fs)
+            | _, _ => None
+            end
+        | _ => None
+        end
+      else if t =? "comp" then
+        match args with
+        | [r; iv; av; i; c; s; res] =>
+            match expr_of_sexp r, opt_str iv, opt_str av, expr_of_sexp i, expr_of_sexp c,
+                  expr_of_sexp s, expr_of_sexp res with
+            | Some r', Some iv', Some av', Some i', Some c', Some s', Some res' =>
+                Some (EComp r' iv' av' i' c' s' res')
+            | _, _, _, _, _, _, _ => None
+            end
+        | _ => None
+        end
+      else None
+  | _ => None
+  end.
+
+Definition vty_of_sexp (x : sexp) : option vty :=
+  match x with
+  | Atom a =>
+      if a =? "int" then Some TInt else if a =? "uint" then Some TUInt
+      else if a =? "dbl" then Some TDbl else if a =? "str" then Some TStr
+      else if a =? "bytes" then Some TBytes else if a =? "bool" then Some TBool
+      else if a =? "list" then Some TList else if a =? "dur" then Some TDur
+      else if a =? "ts" then Some TTs else if a =? "value" then Some TValue else None
+  | _ => None
+  end.
+
+Definition xtor_of_sexp (x : sexp) : option extractor :=
+  match x with
+  | Atom a => if a =? "args" then Some XArgs else if a =? "ident" then Some XIdent
+              else if a =? "expr" then Some XExpr else None
+  | SList [Atom k; t] =>
+      match vty_of_sexp t with
+      | Some t' => if k =? "this" then Some (XThis t') else if k =? "thisopt" then Some (XThisOpt t')
+                   else if k =? "arg" then Some (XArg t') else if k =? "argopt" then Some (XArgOpt t')
+                   else None
+      | None => None
+      end
+  | _ => None
+  end.
+
+Definition hbody_of_sexp (x : sexp) : option hbody :=
+  match x with
+  | Atom a => if a =? "fail" then Some HFail else if a =? "sum" then Some HSum else None
+  | SList [Atom k; y] =>
+      if k =? "const" then option_map HConst (value_of_sexp y)
+      else if k =? "arg" then option_map (fun n => HArg (N.to_nat n)) (sexp_N y)
+      else None
+  | _ => None
+  end.
+
+(** (fn (params XTOR...) BODY) *)
+Definition fdef_of_sexp (x : sexp) : option fdef :=
+  match x with
+  | SList [Atom _; SList (Atom _ :: ps); b] =>
+      match opt_map_list xtor_of_sexp ps, hbody_of_sexp b with
+      | Some ps', Some b' => Some {| params := ps'; body := FHost b' |}
+      | _, _ => None
+      end
+  | _ => None
+  end.
+
+Definition binding_of_sexp (x : sexp) : option (str * value) :=
+  match x with
+  | SList [n; v] => match opt_str n, value_of_sexp v with
+                    | Some n', Some v' => Some (n', v')
+                    | _, _ => None
+                    end
+  | _ => None
+  end.
+
+(** (ctx (scopes (scope BINDING...)...) (funs ((str..) FDEF)...)); scopes innermost first;
+    within a scope a later binding of the same name wins (HashMap::insert), so bindings are
+    consed in reverse. *)
+Definition ctx_of_sexp (x : sexp) : option ctx :=
+  match x with
+  | SList [Atom _; SList (Atom _ :: scs); SList (Atom _ :: fs)] =>
+      match opt_map_list (fun s => match s with
+                                   | SList (Atom _ :: bs) =>
+                                       option_map (@rev' _) (opt_map_list binding_of_sexp bs)
+                                   | _ => None
+                                   end) scs,
+            opt_map_list (fun f => match f with
+                                   | SList [n; d] => match opt_str n, fdef_of_sexp d with
+                                                     | Some n', Some d' => Some (n', d')
+                                                     | _, _ => None
+                                                     end
+                                   | _ => None
+                                   end) fs with
+      | Some scs', Some fs' => Some {| funs := rev' fs' ++ default_funs; scopes := scs' |}
+      | _, _ => None
+      end
+  | _ => None
+  end.
+
+Definition sexp_of_event (e : event) : sexp :=
+  match e with
+  | Called f args => tagged "call" (tagged "str" (sexp_of_str f) :: map sexp_of_value args)
+  end.
+
+Definition sexp_of_result (r : result) : sexp :=
+  tagged "res" [sexp_of_outcome sexp_of_value (fst r); tagged "log" (map sexp_of_event (snd r))].
